@@ -216,7 +216,7 @@ theorem decodeSpec_shape (old : Layer) (data : Bytes) (h : (decodeSpec old data)
     simp only [decodeSpec] at h ⊢
     by_cases h8 : 8 ≤ be16 a4 a5
     · by_cases ht : rest.length + 8 < be16 a4 a5
-      · simp only [h8, ht, if_true, ge_iff_le, gt_iff_lt]
+      · simp only [h8, ht, if_true]
         refine ⟨hw _, ?_, rfl, rfl, rfl, ?_, ?_, Or.inr h8, ?_, ?_, ?_⟩
         · simp only [header, putBe16_be16, List.cons_append, List.nil_append]
         · simp [putBe16_be16]
@@ -224,7 +224,7 @@ theorem decodeSpec_shape (old : Layer) (data : Bytes) (h : (decodeSpec old data)
         · exact (List.take_of_length_le (by simp only [List.length_cons, List.cons_append, List.nil_append]; omega)).symm
         · intro hf; cases hf
         · intro _; exact ⟨rfl, by simp only [List.length_cons]; omega⟩
-      · simp only [h8, ht, if_true, if_false, ge_iff_le, gt_iff_lt]
+      · simp only [h8, ht, if_true, if_false]
         have hlt : (List.take (be16 a4 a5 - 8) rest).length = be16 a4 a5 - 8 := by
           rw [List.length_take]; omega
         refine ⟨hw _, ?_, rfl, rfl, rfl, ?_, ?_, Or.inr h8, ?_, ?_, ?_⟩
@@ -245,5 +245,47 @@ theorem decodeSpec_shape (old : Layer) (data : Bytes) (h : (decodeSpec old data)
         · intro _; left; exact ⟨h0, rfl⟩
         · intro hf; cases hf
       · simp [h8, h0] at h
+
+theorem putBe16_inj (a b : Nat) (ha : a < 65536) (hb : b < 65536) (h : putBe16 a = putBe16 b) : a = b := by
+  simp only [putBe16, List.cons.injEq, and_true] at h
+  rw [← be16_u8 a ha, ← be16_u8 b hb, h.1, h.2]
+
+/-- Two in-range layer values with the same eight header bytes have the same public fields. -/
+theorem header_inj (a b : Layer) (wa : wf a) (wb : wf b) (h : header a = header b) : sameFields a b := by
+  simp only [header, putBe16, List.cons_append, List.nil_append, List.cons.injEq, and_true] at h
+  obtain ⟨h0, h1, h2, h3, h4, h5, h6, h7⟩ := h
+  refine ⟨putBe16_inj _ _ wa.1 wb.1 ?_, putBe16_inj _ _ wa.2.1 wb.2.1 ?_, putBe16_inj _ _ wa.2.2.1 wb.2.2.1 ?_,
+    putBe16_inj _ _ wa.2.2.2 wb.2.2.2 ?_⟩ <;> simp only [putBe16, *]
+
+theorem decodeUdp_shape (old : Layer) (data foreign : Bytes) (l : Layer) (t : Bool)
+    (h : decodeUdp old data foreign = .ok (l, t)) : DecodedShape data l t := by
+  unfold decodeUdp at h
+  rw [decode_eq] at h
+  dsimp only at h
+  split at h
+  · cases h
+  · rename_i he
+    cases h
+    exact decodeSpec_shape old data (by simpa using he)
+
+/-! ## Flows -/
+
+theorem newFlow_ok (t : Nat) (src dst : Bytes) (hs : src.length ≤ 16) (hd : dst.length ≤ 16) :
+    newFlow t src dst = .ok { typ := t, slen := src.length, dlen := dst.length, src := pad16 src, dst := pad16 dst } := by
+  have : ¬ (src.length > Gp.Gen.Udp.maxEndpointSize ∨ dst.length > Gp.Gen.Udp.maxEndpointSize) := by
+    simp only [Gp.Gen.Udp.maxEndpointSize]; omega
+  simp only [newFlow, this, if_false]
+
+theorem take_pad16 (b : Bytes) : (pad16 b).take b.length = b := by
+  simp [pad16]
+
+theorem pad16_inj (a b : Bytes) (ha : a.length = 2) (hb : b.length = 2) (h : pad16 a = pad16 b) : a = b := by
+  have := congrArg (List.take 2) h
+  rw [← ha] at this
+  rw [take_pad16] at this
+  rw [ha, ← hb, take_pad16] at this
+  exact this
+
+theorem putBe16_length (n : Nat) : (putBe16 n).length = 2 := rfl
 
 end Gp.Udp
